@@ -49,6 +49,8 @@ def draw_recording(rng, idx, fmt=None):
          "order": rng.choice(PERMS), "band": rng.choice(["BH", "HH", "EH", "SH", "HN"]),
          "loc": rng.choice(["", "", "00", "10"]), "big": rng.random() < 0.12,
          "eol": "crlf" if (fmt in F.TEXT and rng.random() < 0.3) else "lf"}
+    if fmt not in F.TEXT and rng.random() < 0.3:
+        s["bands"] = {c: rng.choice(["BH", "HH", "EH", "SH", "HN"]) for c in ("N", "E", "Z")}
     if fmt in ("mseed1", "mseed3"):
         s["encoding"] = rng.choice(["STEIM2", "STEIM1", "INT32"])
         if s["big"] and s["encoding"] != "INT32":
